@@ -73,7 +73,10 @@ class Gen(object):
         pw = PROFILE_WEIGHTS.get(prop, PROFILE_WEIGHTS["default"])
         self.profile = profile or wchoice(rng, pw)
         self.pool_size = rng.choice([4, 6, 8, 12, 16, 24, 40]) if tier == "quick" else rng.choice([6, 10, 16, 24, 40, 60])
-        self.pool = lrugen.gen_pool(rng, self.profile, self.pool_size, huge=prop in ("C01", "C02", "C19", "C05", "C03") and rng.random() < 0.04)
+        self.huge = prop in ("C01", "C02", "C19", "C05", "C03") and rng.random() < 0.04
+        # rare: a chain of path stems 260-1100 deep (ancestor walks, depth limits, recursion)
+        self.deep_chain = prop in ("C01", "C02", "C03", "C04", "C05", "C07", "C08", "C13", "C20") and self.profile != "any-byte" and rng.random() < (0.01 if tier == "quick" else 0.015)
+        self.pool = lrugen.gen_pool(rng, self.profile, self.pool_size, huge=self.huge, deep_chain=self.deep_chain)
         if not self.pool:
             self.pool = [b"s:http|h:com|h:a|"]
         hi = 40 if tier == "quick" else 120
@@ -295,6 +298,11 @@ class Gen(object):
             if r.random() < 0.3:
                 o["drive"] = r.choice(["until_done", "until_done", "exhaust"])
             return o
+        if k == "create_we" and self.prop in ("C12", "C04") and r.random() < 0.02:
+            # one request attaching 65-200 prefixes
+            base = self.prefix()
+            n_ = r.choice([65, 70, 100, 129, 200])
+            return {"op": "create_we", "prefixes": [enc(base + b"p:m%03d|" % i) for i in range(n_)]}
         if k == "create_we" and self.many_ids:
             self.many_ids = False
             if self.prop == "C12" and r.random() < 0.04:
@@ -352,6 +360,9 @@ class Gen(object):
         if k == "add_prefix":
             p = self.prefix()
             self.created_prefixes.append(p)
+            if self.prop in ("C04", "C05", "C07", "C08", "C10", "C13", "C20", "C11", "C15") and r.random() < 0.06:
+                # a webentity id of the caller's own choosing, far from those the index issues
+                return {"op": k, "prefix": self.e(p), "ref": enc(p), "own_id": r.choice([2**28, 2**28 + 5, 3000000001, 2**31, 2**32 - 1, 2**24 + 1, 70000])}
             return {"op": k, "prefix": self.e(p), "ref": enc(self.ref())}
         if k == "remove_prefix":
             p = self.ref()
@@ -431,6 +442,8 @@ class Gen(object):
                 o = {"op": "clear", "default": r.choice([None, None, "domain", "path1", "empty", "never"]), "rules": rules}
             if pending:
                 o["pending"] = pending
+            elif r.random() < 0.12:
+                o["after_close"] = True
             return o
         if k == "remove_rule":
             a = self.anchor()
@@ -476,5 +489,11 @@ class Gen(object):
             nsweep = 0
             k_ = [i for i, o in enumerate(ops) if o["op"] in ("add_pages_seq", "create_many") or o.get("repeat")][0]
             ops = ops[: k_ + 4]
+        if self.deep_chain:
+            nsweep = 0
+            ops = ops[:10]
+        if self.huge and self.profile == "long-stems":
+            nsweep = 0 if len(ops) <= 12 else 12  # stems of hundreds of blocks: few sweeps
+            ops = ops[:24]
         cfg = self.config(sweep_every=nsweep, **extra)
         return {"prop": self.prop, "seed": seed, "obs_seed": self.rng.getrandbits(32), "config": cfg, "ops": ops}
